@@ -7,6 +7,7 @@ CONSTANTS
   Exp = 2
   MaxClock = 0
   FetchUnderLock = TRUE
+  AnyIdx = FALSE
   MaxReq = 2
   Invals = {FALSE, TRUE}
   MCStatuses = {200}
